@@ -15,6 +15,8 @@ pub enum Op {
     MutReplace,
     CloneDrop,
     CloneSwitch,
+    /// clone while `T::clone` panics on the last live element: the partial clone must be dropped soundly
+    ClonePanic,
     Push,
     LenFull,
 }
@@ -26,8 +28,8 @@ pub enum End {
     Build,
 }
 
-const COPS: [Op; 6] = [Op::Next, Op::NextBack, Op::AsSlice, Op::MutReplace, Op::CloneDrop, Op::CloneSwitch];
-const BOPS: [Op; 6] = [Op::Push, Op::AsSlice, Op::MutReplace, Op::LenFull, Op::CloneDrop, Op::CloneSwitch];
+const COPS: [Op; 7] = [Op::Next, Op::NextBack, Op::AsSlice, Op::MutReplace, Op::CloneDrop, Op::CloneSwitch, Op::ClonePanic];
+const BOPS: [Op; 7] = [Op::Push, Op::AsSlice, Op::MutReplace, Op::LenFull, Op::CloneDrop, Op::CloneSwitch, Op::ClonePanic];
 
 fn ids(s: &[Tok]) -> Vec<u32> {
     s.iter().map(|t| t.id).collect()
@@ -137,6 +139,23 @@ fn consumer_history<const N: usize>(r: &mut Report, ops: &[Op], end: End) {
                     Err(()) => {
                         r.fail("C15:consumer-panicked", "ArrayConsumer", what(), "<panic>".into(), "slice".into());
                         bad = true;
+                    }
+                }
+            }
+            Op::ClonePanic => {
+                r.ev("consumer.clone:T::clone-panics");
+                if let Some(&last) = model.back() {
+                    ledger::set_panic_on_clone(Some(last));
+                    let cref = &*c;
+                    let res = catch(|| cref.clone());
+                    ledger::set_panic_on_clone(None);
+                    match res {
+                        Err(()) => {} // the partially built clone was dropped during unwinding; the audit at the end checks how
+                        Ok(c2) => {
+                            r.fail("C15:consumer-clone-swallowed-panic", "ArrayConsumer", what(), "clone returned".into(), "the panic of T::clone propagates".into());
+                            std::mem::forget(c2);
+                            bad = true;
+                        }
                     }
                 }
             }
@@ -277,6 +296,20 @@ pub fn builder_history<const N: usize>(r: &mut Report, ops: &[Op], end: End, c11
                 if b.len() != model.len() || b.is_full() != (model.len() == N) {
                     r.fail(sig("C15:builder-len", "C11:builder-len"), "ArrayBuilder", what(), format!("len={} is_full={}", b.len(), b.is_full()), format!("len={} is_full={}", model.len(), model.len() == N));
                     bad = true;
+                }
+            }
+            Op::ClonePanic => {
+                r.ev("builder.clone:T::clone-panics");
+                if let Some(&last) = model.last() {
+                    ledger::set_panic_on_clone(Some(last));
+                    let bref = &b;
+                    let res = catch(|| bref.clone());
+                    ledger::set_panic_on_clone(None);
+                    if let Ok(b2) = res {
+                        r.fail(sig("C15:builder-clone-swallowed-panic", "C11:builder-clone-swallowed-panic"), "ArrayBuilder", what(), "clone returned".into(), "the panic of T::clone propagates".into());
+                        std::mem::forget(b2);
+                        bad = true;
+                    }
                 }
             }
             Op::CloneDrop | Op::CloneSwitch => {
@@ -654,6 +687,83 @@ fn destructure_shapes(cfg: &Cfg) -> Report {
     r
 }
 
+/// Zero-sized elements with drop glue: addresses carry no information, so only conservation is
+/// observable - every created value is dropped exactly once (pointer-walking Drop impls that compare
+/// begin/end pointers silently skip ZSTs).
+fn zst_drop(cfg: &Cfg) -> Report {
+    use crate::ledger::{Zdrop, ZDROPS};
+    let mut r = Report::new();
+    if !cfg.mine(0) {
+        return r;
+    }
+    fn drops() -> u64 {
+        ZDROPS.with(|z| z.get())
+    }
+    macro_rules! expect_drops {
+        ($name:expr, $created:expr, $body:block) => {{
+            ZDROPS.with(|z| z.set(0));
+            let res = catch(|| $body);
+            r.ev("zst-drop-conservation");
+            let d = drops();
+            if res.is_err() || d != $created {
+                r.fail("C15:zst-element-not-dropped-exactly-once", "ZST with Drop", $name.to_string(), if res.is_err() { "<panic>".into() } else { format!("{} drops", d) }, format!("{} drops (one per created value)", $created));
+            }
+            r.nt(&$name);
+        }};
+    }
+    macro_rules! forn {
+        ($($n:literal)*) => {$(
+            for k in 0..=$n {
+                expect_drops!(format!("ArrayBuilder<Zdrop,{}>: push {} then drop", $n, k), k as u64, {
+                    let mut b: ArrayBuilder<Zdrop, $n> = ArrayBuilder::new();
+                    for _ in 0..k { b.push(Zdrop); }
+                    assert!(b.len() == k && b.as_slice().len() == k);
+                    drop(b);
+                });
+                expect_drops!(format!("ArrayConsumer<Zdrop,{}>: take {} (alternating ends) then drop", $n, k), $n as u64, {
+                    let mut c = ArrayConsumer::new([(); $n].map(|_| Zdrop));
+                    for i in 0..k { let x = if i % 2 == 0 { c.next() } else { c.next_back() }; drop(x.map(ManuallyDrop::into_inner)); }
+                    assert!(c.as_slice().len() == $n - k);
+                    drop(c);
+                });
+            }
+            expect_drops!(format!("ArrayBuilder<Zdrop,{}>: fill, build, drop the array", $n), $n as u64, {
+                let mut b: ArrayBuilder<Zdrop, $n> = ArrayBuilder::new();
+                for _ in 0..$n { b.push(Zdrop); }
+                drop(b.build());
+            });
+            expect_drops!(format!("map_!([Zdrop;{}]) identity", $n), $n as u64, {
+                let out: [Zdrop; $n] = konst::array::map_!([(); $n].map(|_| Zdrop), |z| z);
+                drop(out);
+            });
+            expect_drops!(format!("from_fn_!([Zdrop;{}])", $n), $n as u64, {
+                let out: [Zdrop; $n] = konst::array::from_fn_!(|_| Zdrop);
+                drop(out);
+            });
+            for k in 0..$n {
+                expect_drops!(format!("map_!([Zdrop;{}]) closure returns from the enclosing fn at element {}", $n, k), $n as u64, {
+                    fn early<const M: usize>(arr: [Zdrop; M], k: usize) -> Option<[Zdrop; M]> {
+                        let mut i = 0;
+                        Some(konst::array::map_!(arr, |z| { if i == k { return None; } i += 1; z }))
+                    }
+                    drop(early::<$n>([(); $n].map(|_| Zdrop), k));
+                });
+            }
+            expect_drops!(format!("destructure!([Zdrop;{}]) with `..`", $n), $n as u64, {
+                let arr = [(); $n].map(|_| Zdrop);
+                konst::destructure!{[..] = arr}
+            });
+        )*};
+    }
+    forn!(1 2 3 5);
+    expect_drops!("destructure!((Zdrop, _, Zdrop))".to_string(), 3u64, {
+        let t = (Zdrop, Zdrop, Zdrop);
+        konst::destructure!{(a, _, c) = t}
+        drop((a, c));
+    });
+    r
+}
+
 /// Copy-type consumers/builders: `copy()` gives an independent value with the same future
 fn copy_types(cfg: &Cfg) -> Report {
     let mut r = Report::new();
@@ -691,6 +801,7 @@ pub fn run(cfg: &Cfg) -> (&'static str, Report, String, String) {
     rep.merge(map_by_value(cfg));
     rep.merge(destructure_shapes(cfg));
     rep.merge(copy_types(cfg));
+    rep.merge(zst_drop(cfg));
     (
         "C15",
         rep,
